@@ -28,6 +28,10 @@ def run_config(chk, tier, cfgname):
                         "colour written outside the analysed primitives")
     chk.floor("set_color-sites", n, 3)
     common.protocol_rows(chk, prog, "finish_cycle-whole-cycles", ["finish_cycle"], aspects=("cycle", "safety"))
+    # "destructed" in the tables is the event GcPtr::drop_in_place: it must really run the value's destructor, for every
+    # kind of allocation (seed C02-f / C04-b: the vtable's drop slot left empty by a needs_drop decision for another type)
+    from gcv import rules_prims
+    rules_prims.check(chk, prog, which=("gc_ptr::GcPtr::drop_in_place",), config=cfgname)
     typestate.report_automaton(chk, ["S3", "S3r", "S2", "S2o", "S3o"])
     # shell clause as typestate paths
     A = typestate.auto(cfgname)
